@@ -1,6 +1,203 @@
-(* C08 — hard money market. Property theorems only; proofs are in Proofs/Hard.v. *)
+(* C08 — hard money market: LTV gate, liquidation only of unsafe positions, monotone interest.
+   Property theorems only; proofs are in Proofs/Hard.v.  [_refuted] theorems carry concrete
+   witnesses: minimised histories that the driver's monitors found on the real keepers. *)
 From Kava Require Import Base.Prelude Base.Dec Model.Hard Proofs.Hard.
+Local Open Scope Z_scope.
 
+(** * LTV gate *)
+
+(* After any successful withdrawal the account's borrowed value is within the loan-to-value
+   limit of its remaining deposits at current prices, as judged by the liquidation routine
+   (IsWithinValidLtvRange) on the stored records. *)
+Theorem C08_withdraw_gate :
+  forall e s u c s', withdraw e s u c = Ok s' tt ->
+  within_ltv e s' (amt_of (dep s' u)) (amt_of (bor s' u)) = Some true.
+Proof. exact withdraw_gate. Qed.
+Print Assumptions C08_withdraw_gate.
+
+(* After a successful borrow: the new borrow [c] and the previous (synced) borrow [old], each
+   valued separately, are together within the limit.  ValidateBorrow does not value their sum,
+   which is what the liquidation routine does — see the refutation below. *)
+Theorem C08_borrow_gate_partial :
+  forall e s u c s', borrow e s u c = Ok s' tt ->
+  exists old,
+    ceq (nd e) (amt_of (bor s' u)) (cadd old c) /\
+    all_priced e s' (amt_of (dep s' u)) = true /\ all_priced e s' old = true /\ all_priced e s' c = true /\
+    value_of e s' old + value_of e s' c <= borrowable_of e s' (amt_of (dep s' u)).
+Proof. exact borrow_gate_partial. Qed.
+Print Assumptions C08_borrow_gate_partial.
+
+(* concrete witnesses: minimised histories found by the driver's monitors on the real keepers *)
+Definition wa_env : env := mk_env 5 4 [Some (mkMarket 100000000 800000000000000000 false 0 25000000000000000 10000000000000000 50000000000000000 2000000000000000000 800000000000000000 500000000000000000); Some (mkMarket 100000000 600000000000000000 false 0 25000000000000000 0 50000000000000000 100000000000000000 800000000000000000 5000000000000000000); Some (mkMarket 1000000 600000000000000000 false 0 500000000000000000 50000000000000000 800000000000000000 2000000000000000000 800000000000000000 10000000000000000000); Some (mkMarket 1000000000000000000 750000000000000000 false 0 50000000000000000 0 500000000000000000 1000000000000000000 800000000000000000 5000000000000000000); None] 10000000000000000000.
+Definition wa_init : state := mk_state [[100000000000000000; 100000000000000000; 1000000000000000; 1000000000000000000000000000; 1000000000000000]; [100000000000000000; 100000000000000000; 1000000000000000; 1000000000000000000000000000; 1000000000000000]; [100000000000000000; 100000000000000000; 1000000000000000; 1000000000000000000000000000; 1000000000000000]; [4000000000; 4000000000; 40000000; 40000000000000000000; 40000000]; [0;0;0;0;0]; [0;0;0;0;0]] [1083581890000704538815; 1712000000391949144; 333333333333333333; 1746000000000245087390; 0] [Some 1704067200; Some 1704067200; Some 1704067200; Some 1704067200; None].
+Definition wa_prefix : list op := [Deposit 0%nat [(2%nat, 3864000000)];
+  Deposit 1%nat [(0%nat, 149319586)];
+  Deposit 2%nat [(0%nat, 9228651)];
+  Borrow 2%nat [(2%nat, 63000000)];
+  Borrow 1%nat [(2%nat, 3279000000)];
+  BeginBlock 1752710400 [1000000000000000000; 1000000000000000000; 8646183524487635464; 1000000000000000000];
+  Liquidate 0%nat 1%nat].
+Definition wa_block : op := BeginBlock 1752796800 [1000000000000000000; 1000000000000000000; 1004630961015383585; 1000000000000000000].
+
+Definition wb_env : env := mk_env 5 4 [Some (mkMarket 100000000 800000000000000000 false 0 100000000000000000 50000000000000000 0 1000000000000000000 800000000000000000 5000000000000000000); Some (mkMarket 100000000 750000000000000000 false 0 100000000000000000 50000000000000000 50000000000000000 1000000000000000000 800000000000000000 5000000000000000000); Some (mkMarket 1000000 750000000000000000 false 0 100000000000000000 10000000000000000 0 1000000000000000000 800000000000000000 500000000000000000); Some (mkMarket 1000000000000000000 500000000000000000 false 0 25000000000000000 50000000000000000 0 2000000000000000000 800000000000000000 5000000000000000000); None] 0.
+Definition wb_init : state := mk_state [[100000000000000000; 100000000000000000; 1000000000000000; 1000000000000000000000000000; 1000000000000000]; [100000000000000000; 100000000000000000; 1000000000000000; 1000000000000000000000000000; 1000000000000000]; [100000000000000000; 100000000000000000; 1000000000000000; 1000000000000000000000000000; 1000000000000000]; [4000000000; 4000000000; 40000000; 40000000000000000000; 40000000]; [0;0;0;0;0]; [0;0;0;0;0]] [618130000000000000000; 608000000629804639; 2500000000000000000; 450000000000000000; 0] [Some 1704067200; Some 1704067200; Some 1704067200; Some 1704067200; None].
+Definition wb_prefix : list op := [Deposit 0%nat [(3%nat, 222222222222222222222222)];
+  Deposit 1%nat [(0%nat, 10029678)];
+  Borrow 1%nat [(3%nat, 55107954330133333330)]].
+Definition wb_last : op := Borrow 1%nat [(3%nat, 55107954330133333338)].
+
+(* The full statement is false: a borrow that ValidateBorrow accepts can leave the position
+   outside the range the liquidation routine accepts (one ulp of 10^-18 USD; an 18-decimal asset
+   priced at 0.45 USD, borrowed in two steps at the boundary). *)
+Theorem C08_borrow_gate_refuted :
+  exists e s u c s', borrow e s u c = Ok s' tt /\
+    within_ltv e s' (amt_of (dep s' u)) (amt_of (bor s' u)) = Some false.
+Proof.
+  exists wb_env, (run wb_env wb_init wb_prefix), 1%nat, (of_list [(3%nat, 55107954330133333338)]).
+  apply (res_ok_elim (borrow wb_env (run wb_env wb_init wb_prefix) 1%nat (of_list [(3%nat, 55107954330133333338)]))
+           (fun s' => within_ltv wb_env s' (amt_of (dep s' 1%nat)) (amt_of (bor s' 1%nat)) = Some false)).
+  vm_compute. reflexivity.
+Qed.
+Print Assumptions C08_borrow_gate_refuted.
+
+(* ... and the same position can then be liquidated by a third party at once. *)
+Theorem C08_accepted_borrow_liquidatable :
+  exists e s o s' s'', step e s o = Ok s' tt /\ (exists u c, o = Borrow u c) /\
+    step e s' (Liquidate 2%nat 1%nat) = Ok s'' tt.
+Proof.
+  exists wb_env, (run wb_env wb_init wb_prefix), wb_last.
+  destruct (res_ok_elim (step wb_env (run wb_env wb_init wb_prefix) wb_last)
+             (fun s' => match step wb_env s' (Liquidate 2%nat 1%nat) with Ok _ _ => True | _ => False end))
+    as (s' & E & P); [vm_compute; exact I|].
+  exists s'. destruct (step wb_env s' (Liquidate 2%nat 1%nat)) as [s'' []| |]; try contradiction.
+  exists s''. split; [exact E|]. split; [unfold wb_last; eauto|reflexivity].
+Qed.
+Print Assumptions C08_accepted_borrow_liquidatable.
+
+(** * liquidation only of unsafe positions *)
+
+(* A successful liquidation: the borrower's position, after the interest sync the handler
+   performs, is outside the valid LTV range. *)
+Theorem C08_liq_only_unsafe :
+  forall e s k b s', liquidate e s k b = Ok s' tt ->
+  exists s2 dp bw, sync_position e s b = Ok s2 tt /\ dep s2 b = Some dp /\ bor s2 b = Some bw /\
+                   within_ltv e s2 (amt dp) (amt bw) = Some false.
+Proof. exact liq_only_unsafe. Qed.
+Print Assumptions C08_liq_only_unsafe.
+
+(* A position within the limit cannot be liquidated by anyone. *)
+Theorem C08_safe_position_not_liquidatable :
+  forall e s b s2 dp bw,
+  sync_position e s b = Ok s2 tt -> dep s2 b = Some dp -> bor s2 b = Some bw ->
+  within_ltv e s2 (amt dp) (amt bw) = Some true ->
+  forall k s', liquidate e s k b <> Ok s' tt.
+Proof. exact safe_not_liquidatable. Qed.
+Print Assumptions C08_safe_position_not_liquidatable.
+
+(** * scope of a liquidation *)
+Theorem C08_liq_scope :
+  forall e s k b s', liquidate e s k b = Ok s' tt -> k <> hacc e ->
+  exists s2 dp, sync_position e s b = Ok s2 tt /\ dep s2 b = Some dp /\
+    dep s' b = None /\ bor s' b = None /\
+    (forall v, v <> b -> dep s' v = dep s v /\ bor s' v = bor s v) /\
+    (forall d, (d < nd e)%nat -> bal s (hacc e) d - bal s' (hacc e) d <= amt dp d) /\
+    (k <> aacc e -> k <> b -> forall d, (d < nd e)%nat ->
+       bal s' k d = bal s k d + Z.max 0 (dec_trunc_int (dec_mul_int (keeper_pct e d) (amt dp d)))) /\
+    (forall x d, x <> hacc e -> x <> aacc e -> x <> b -> x <> k -> bal s' x d = bal s x d).
+Proof. exact liq_scope. Qed.
+Print Assumptions C08_liq_scope.
+
+(* Withdraw, borrow and repay change nobody else's records either. *)
+Theorem C08_others_untouched :
+  forall e s s',
+  (forall u c, withdraw e s u c = Ok s' tt -> forall v, v <> u -> dep s' v = dep s v /\ bor s' v = bor s v) /\
+  (forall u c, borrow e s u c = Ok s' tt -> forall v, v <> u -> dep s' v = dep s v /\ bor s' v = bor s v) /\
+  (forall a o c, repay e s a o c = Ok s' tt -> forall v, v <> o -> dep s' v = dep s v /\ bor s' v = bor s v).
+Proof.
+  intros e s s'. split; [|split].
+  - intros u c H v Hv. apply withdraw_spec in H. destruct H as (s2 & r & _ & _ & H). cbn zeta in H.
+    destruct H as (_ & _ & _ & _ & H1 & H2 & _). split; [apply H1|apply H2]; assumption.
+  - intros u c H v Hv. apply borrow_spec in H. destruct H as (s2 & dp & _ & _ & _ & _ & _ & _ & _ & _ & H & _). apply H, Hv.
+  - intros a o c H v Hv. apply repay_spec in H. destruct H as (s2 & r & _ & _ & H). cbn zeta in H.
+    destruct H as (_ & _ & _ & _ & H1 & H2). rewrite H1. split; [reflexivity|apply H2, Hv].
+Qed.
+Print Assumptions C08_others_untouched.
+
+(** * interest *)
+
+(* With no action by the user (a begin block), the owed amount GetSyncedBorrow reports does not
+   decrease, and the query does not start to panic — for every oracle factor >= 1. *)
+Theorem C08_interest_monotone_borrow :
+  forall e s t fs s' u r c,
+  begin_block e s t fs = Ok s' tt -> (forall d, (d < nd e)%nat -> PREC <= nthZ fs d) ->
+  fac_nonneg (bfac s) -> bor s u = Some r -> (forall d, 0 <= amt r d) -> idx_sound (bfac s) r ->
+  synced_borrow e s u = Some (Ok c tt) ->
+  exists c', synced_borrow e s' u = Some (Ok c' tt) /\ forall d, c d <= c' d.
+Proof. exact interest_monotone_borrow. Qed.
+Print Assumptions C08_interest_monotone_borrow.
+
+(* The same for deposits, under the guard "reserves <= cash + borrows in every denom". *)
+Theorem C08_interest_monotone_supply_partial :
+  forall e s t fs s' u r c,
+  begin_block e s t fs = Ok s' tt -> env_wf e ->
+  fac_nonneg (sfac s) -> reserves_covered e s ->
+  dep s u = Some r -> (forall d, 0 <= amt r d) -> idx_sound (sfac s) r ->
+  synced_deposit e s u = Some (Ok c tt) ->
+  exists c', synced_deposit e s' u = Some (Ok c' tt) /\ forall d, c d <= c' d.
+Proof. exact interest_monotone_supply. Qed.
+Print Assumptions C08_interest_monotone_supply_partial.
+
+(* Without the guard the statement is false: after a liquidation that strands bad debt the
+   reserves exceed cash + borrows, CalculateSupplyInterestFactor returns a factor below one
+   and an untouched deposit's claimable amount shrinks at the next block. *)
+Theorem C08_interest_monotone_supply_refuted :
+  exists e s t fs s' u c c' d,
+    begin_block e s t fs = Ok s' tt /\ (forall d, (d < 4)%nat -> PREC <= nthZ fs d) /\
+    synced_deposit e s u = Some (Ok c tt) /\ synced_deposit e s' u = Some (Ok c' tt) /\
+    c' d < c d.
+Proof.
+  pose (s := run wa_env wa_init wa_prefix).
+  pose (fs := [1000000000000000000; 1000000000000000000; 1004630961015383585; 1000000000000000000]).
+  destruct (res_ok_elim (begin_block wa_env s 1752796800 fs)
+             (fun s' => match synced_deposit wa_env s 0%nat, synced_deposit wa_env s' 0%nat with
+                        | Some (Ok c _), Some (Ok c' _) => c' 2%nat < c 2%nat
+                        | _, _ => False end)) as (s' & E & P); [vm_compute; reflexivity|].
+  destruct (synced_deposit wa_env s 0%nat) as [[c []| |]|] eqn:E1; try contradiction.
+  destruct (synced_deposit wa_env s' 0%nat) as [[c' []| |]|] eqn:E2; try contradiction.
+  exists wa_env, s, 1752796800, fs, s', 0%nat, c, c', 2%nat.
+  repeat split; try assumption.
+  intros d Hd. destruct d as [|[|[|[|d]]]]; [vm_compute; discriminate..|lia].
+Qed.
+Print Assumptions C08_interest_monotone_supply_refuted.
+
+(** * caps on withdrawals and repayments *)
+Theorem C08_withdraw_capped :
+  forall e s u c s', withdraw e s u c = Ok s' tt -> u <> hacc e ->
+  exists s2 r, sync_position e s u = Ok s2 tt /\ dep s2 u = Some r /\
+    let moved := capped e c (amt r) in
+    (forall d, bal s' u d = bal s u d + moved d /\ bal s' (hacc e) d = bal s (hacc e) d - moved d) /\
+    (forall d, 0 <= amt r d -> 0 <= c d -> 0 <= moved d <= amt r d) /\
+    ceq (nd e) (amt_of (dep s' u)) (csub (amt r) moved).
+Proof. exact withdraw_capped. Qed.
+Print Assumptions C08_withdraw_capped.
+
+Theorem C08_repay_capped :
+  forall e s a o c s', repay e s a o c = Ok s' tt -> a <> hacc e ->
+  exists s2 r, sync_borrow e s o = Ok s2 tt /\ bor s2 o = Some r /\
+    let pay := capped e c (amt r) in
+    (forall d, bal s' a d = bal s a d - pay d /\ bal s' (hacc e) d = bal s (hacc e) d + pay d) /\
+    (forall d, 0 <= amt r d -> 0 <= c d -> 0 <= pay d <= amt r d) /\
+    ceq (nd e) (amt_of (bor s' o)) (csub (amt r) pay).
+Proof. exact repay_capped. Qed.
+Print Assumptions C08_repay_capped.
+
+(* the coins of an accepted message are non-negative (hypothesis of the two cap theorems) *)
+Theorem C08_msg_coins_nonneg :
+  forall l, clist_valid l = true -> forall d, 0 <= of_list l d.
+Proof. exact of_list_nonneg. Qed.
+Print Assumptions C08_msg_coins_nonneg.
+
+(* A failed operation leaves no change (transaction discarded). *)
 Theorem C08_failed_changes_nothing :
   forall e s o, (forall s' u, step e s o <> Ok s' u) -> step' e s o = s.
 Proof.
@@ -8,3 +205,16 @@ Proof.
   exfalso. exact (H s' u eq_refl).
 Qed.
 Print Assumptions C08_failed_changes_nothing.
+
+(** * non-vacuity: the hypotheses are met by reachable states *)
+(* a reachable state in which a liquidation succeeds, and one in which a withdrawal succeeds *)
+Example C08_liquidation_reachable :
+  match step wa_env (run wa_env wa_init (firstn 6 wa_prefix)) (Liquidate 0%nat 1%nat) with Ok _ _ => True | _ => False end.
+Proof. vm_compute. exact I. Qed.
+Example C08_withdraw_reachable :
+  match step wa_env (run wa_env wa_init (firstn 3 wa_prefix)) (Withdraw 2%nat [(0%nat, 1000)]) with Ok _ _ => True | _ => False end.
+Proof. vm_compute. exact I. Qed.
+(* the model invariant evaluated on the witness states *)
+Example C08_inv_on_witness :
+  inv_b wa_env (run wa_env wa_init wa_prefix) = true /\ inv_b wb_env (run wb_env wb_init wb_prefix) = true.
+Proof. split; vm_compute; reflexivity. Qed.
